@@ -16,6 +16,9 @@ use std::time::Duration;
 pub struct Step {
     pub cfg: LCfg,
     pub targets: Vec<String>,
+    /// build the Config with another root level and set the real one through Config::root_mut().set_level()
+    #[serde(default)]
+    pub via_root_mut: Option<u8>,
 }
 
 #[derive(Serialize, Deserialize, Debug, Clone)]
@@ -44,17 +47,17 @@ fn steer(mut cfg: LCfg, cap: u8, holder: u16) -> LCfg {
 pub fn strategy() -> impl Strategy<Value = History> {
     (
         prop_oneof![3 => Just(0u8), 2 => Just(1u8), 1 => Just(2u8)],
-        prop::collection::vec((raw_cfg(6), 0u8..6, any::<u16>(), raw_targets(3..=5)), 1..=8),
+        prop::collection::vec((raw_cfg(6), 0u8..6, any::<u16>(), raw_targets(3..=5), prop::option::weighted(0.3, 0u8..6)), 1..=8),
     )
         .prop_map(|(init, steps)| History {
             init,
             steps: steps
                 .into_iter()
-                .map(|(raw, cap, holder, rt)| {
+                .map(|(raw, cap, holder, rt, via_root_mut)| {
                     let cfg = steer(resolve(&raw), cap, holder);
                     let mut targets: Vec<String> = rt.iter().map(|(k, l, e)| resolve_target(&cfg, *k, *l, *e)).collect();
                     targets.dedup();
-                    Step { cfg, targets }
+                    Step { cfg, targets, via_root_mut }
                 })
                 .collect(),
         })
@@ -81,6 +84,21 @@ fn yaml_for(cfg: &LCfg, dir: &std::path::Path) -> String {
     y
 }
 
+/// Builds the step's Config; optionally with a provisional root level that is corrected afterwards
+/// through the public `Config::root_mut().set_level()`.
+fn step_config(step: &Step, sink: &Sink, tag: &str) -> Result<log4rs::Config, String> {
+    match step.via_root_mut {
+        None => build_config(&step.cfg, sink, tag),
+        Some(provisional) => {
+            let mut c = step.cfg.clone();
+            c.root_level = provisional % 6;
+            let mut config = build_config(&c, sink, tag)?;
+            config.root_mut().set_level(LEVEL_FILTERS[step.cfg.root_level as usize % 6]);
+            Ok(config)
+        }
+    }
+}
+
 /// Runs inside the child process.
 pub fn child_check(h: &History, obs: &mut Obs) -> CaseResult {
     let sink = new_sink();
@@ -95,11 +113,11 @@ pub fn child_check(h: &History, obs: &mut Obs) -> CaseResult {
         if si == 0 {
             match h.init {
                 0 => {
-                    let c = build_config(cfg, &sink, &tag).map_err(|e| Failure { sig: "C02:config".into(), msg: e })?;
+                    let c = step_config(step, &sink, &tag).map_err(|e| Failure { sig: "C02:config".into(), msg: e })?;
                     handle = Some(log4rs::init_config(c).map_err(|e| Failure { sig: "C02:init".into(), msg: e.to_string() })?);
                 }
                 1 => {
-                    let c = build_config(cfg, &sink, &tag).map_err(|e| Failure { sig: "C02:config".into(), msg: e })?;
+                    let c = step_config(step, &sink, &tag).map_err(|e| Failure { sig: "C02:config".into(), msg: e })?;
                     handle = Some(log4rs::config::init_config_with_err_handler(c, Box::new(|_e| {})).map_err(|e| Failure { sig: "C02:init".into(), msg: e.to_string() })?);
                 }
                 _ => {
@@ -109,7 +127,7 @@ pub fn child_check(h: &History, obs: &mut Obs) -> CaseResult {
                 }
             }
         } else {
-            let c = build_config(cfg, &sink, &tag).map_err(|e| Failure { sig: "C02:config".into(), msg: e })?;
+            let c = step_config(step, &sink, &tag).map_err(|e| Failure { sig: "C02:config".into(), msg: e })?;
             handle.as_ref().unwrap().set_config(c);
         }
         // (1) the global maximum equals the most verbose configured level
@@ -120,7 +138,7 @@ pub fn child_check(h: &History, obs: &mut Obs) -> CaseResult {
             "step {} ({}): log::max_level() is {:?}, most verbose configured level is {:?}", si, if si == 0 { "initialisation" } else { "set_config" }, log::max_level(), want_max
         );
         // a twin logger reports the same maximum
-        let twin = log4rs::Logger::new(build_config(cfg, &new_sink(), "").unwrap());
+        let twin = log4rs::Logger::new(step_config(step, &new_sink(), "").unwrap());
         ensure!(twin.max_log_level() == want_max, "C02:reported-max-level", "step {}: Logger::max_log_level() is {:?}, expected {:?}", si, twin.max_log_level(), want_max);
         for t in &step.targets {
             if cfg.effective(t) != cfg.effective_textual(t) {
@@ -175,6 +193,7 @@ pub fn child_check(h: &History, obs: &mut Obs) -> CaseResult {
     obs.class(format!("init={}", ["init_config", "init_config_with_err_handler", "init_raw_config"][h.init as usize % 3]));
     obs.class(format!("steps={}", steps.len()));
     obs.class_if(moved_nonroot, "max-moved-with-nonroot-holder");
+    obs.class_if(steps.iter().any(|s| s.via_root_mut.is_some()), "root-level-set-through-root_mut");
     Ok(())
 }
 
